@@ -15,10 +15,17 @@ LEVEL = "proof"
 DRIVERS = []
 TRUSTED = ["heap frame theorems coq/Proofs/HeapProofs.v are RELATIVE to effect summaries (every operation writes only what it allocates); the summaries are validated on every run by deep "
            "snapshots of every live object and every caller-supplied array around every call of every history (this file)",
-           "translator tools/gen_sites.py -> coq/Gen/Sites.v: guard table and in-place-site table with target provenance, checked by forallb/vm_compute (Proofs/SitesChecks.v)"]
-ASSUMPTIONS = ["'reject assignment' is read at the container API (ep[0,0]=x, ep.start=x, tsd.index[0]=x, tsd.rate=x, ...); the raw ndarrays handed out by .values/.start/.t are writable NumPy "
-               "arrays (documented NumPy aliasing, observation in DESIGN.md section 8)",
-               "Tsd(t, d) built without a time_support keeps the caller's array d (documented): item assignment on the series is then visible in d"]
+           "translator tools/gen_sites.py -> coq/Gen/Sites.v: guard table (__setattr__/__setitem__ only: deletion and the inherited dict mutators of TsGroup have no row; they are "
+           "exercised by part (c) of this file) and in-place-site table with target provenance, checked by forallb/vm_compute (Proofs/SitesChecks.v)"]
+ASSUMPTIONS = ["'reject assignment' is read at the container API: attribute assignment AND deletion of the public reserved attributes, item assignment into IntervalSet / time index / TsGroup "
+               "keys, and every inherited dict mutator of TsGroup (del, pop, popitem, clear, |=, update, setdefault); the raw ndarrays / dict handed out by .values/.start/.t/.index of a "
+               "TsGroup/.data are writable Python objects (documented NumPy aliasing, observation in DESIGN.md section 8) and are not covered",
+               "Tsd(t, d) built without a time_support keeps the caller's array d (documented): item assignment on the series is then visible in d",
+               "'only on the object addressed': an object that IS the addressed one (same Python object reached through another name, e.g. the IntervalSet returned by .time_support, or "
+               "TsGroup.merge_group(g) returning g) is not 'another object', and the series returned by g[k] is the member of g itself (g shows the write); every other live object must be "
+               "unchanged, in particular a second group obtained from g by a selection"]
+
+REJECT = (RuntimeError, AttributeError, TypeError, ValueError, IndexError, KeyError)
 
 
 def _nap():
@@ -26,24 +33,495 @@ def _nap():
     return nap
 
 
-def expect_raises(res, label, f):
-    res.evaluations += 1
+def state(nap, o):
+    """deep snapshot (history.snapshot + the redundant views of keys / index / rate) that survives a broken object"""
     try:
-        f()
-    except (RuntimeError, AttributeError, TypeError, ValueError, IndexError, KeyError):
-        return
-    res.violations.append({"key": {"op": label, "part": "accepted_write"}, "what": "an assignment that must be rejected was accepted: " + label, "input": {"case": label}})
+        s = H.snapshot(nap, o)
+        if isinstance(o, nap.TsGroup):
+            return s + (tuple(o.data.keys()), np.array(o.index, copy=True), tuple(o._metadata.index), len(o))
+        if isinstance(o, nap.IntervalSet):
+            return s + (np.array(o.index, copy=True), tuple(o.columns), np.array(o.start, copy=True), np.array(o.end, copy=True))
+        return s + (np.array([o.rate], dtype=float), np.array(o.index.values, copy=True))
+    except Exception as ex:
+        return ("BROKEN", type(ex).__name__)
 
 
+def is_series(nap, o):
+    return isinstance(o, (nap.Tsd, nap.TsdFrame, nap.TsdTensor))
+
+
+# ------------------------------------------------------------------------------------------------------
+# (c) writes that must be rejected
+def fresh(nap):
+    ep = nap.IntervalSet([0.0, 10.0], [5.0, 15.0], metadata={"lab": [1, 2]})
+    return {"ep": ep,
+            "tsd": nap.Tsd(np.arange(10.0), np.arange(10.0)),
+            "ts": nap.Ts(np.arange(10.0)),
+            "frame": nap.TsdFrame(np.arange(10.0), np.arange(20.0).reshape(10, 2), columns=["a", "b"], metadata={"m": [1, 2]}),
+            "tensor": nap.TsdTensor(np.arange(10.0), np.arange(40.0).reshape(10, 2, 2)),
+            "group": nap.TsGroup({0: nap.Ts(np.arange(10.0)), 1: nap.Ts(np.arange(5.0)), 4: nap.Ts(np.arange(3.0))}, metadata={"lab": [1, 2, 3]}),
+            "other_ep": nap.IntervalSet(0.0, 100.0)}
+
+
+def rejected_writes(nap):
+    """list of (label, container, kind, f(objs)); kind: assign (attribute), item, delete (attribute), dict_api (inherited UserDict mutators)"""
+    out = []
+
+    def A(c, name, v):
+        out.append(("%s.%s=x" % (c, name), c, "assign", lambda o: setattr(o[c], name, v(o) if callable(v) else v)))
+
+    def D(c, name):
+        out.append(("del %s.%s" % (c, name), c, "delete", lambda o: delattr(o[c], name)))
+
+    def I(label, c, f, kind="item"):
+        out.append((label, c, kind, f))
+    oep = lambda o: o["other_ep"]
+    for name, v in (("start", np.array([1.0, 2.0])), ("end", np.array([1.0, 2.0])), ("values", np.zeros((2, 2))), ("index", np.array([5, 6])), ("columns", ["a", "b"]),
+                    ("shape", (2, 2)), ("starts", None), ("ends", None), ("metadata", pd.DataFrame(index=[0, 1])), ("metadata_index", np.array([5, 6])), ("nap_class", "x")):
+        A("ep", name, v)
+    for c, n in (("tsd", 10), ("ts", 10), ("frame", 10), ("tensor", 10)):
+        for name, v in (("index", np.arange(float(n))), ("rate", 3.0), ("time_support", oep), ("t", np.zeros(n)), ("shape", (n,)), ("nap_class", "x")):
+            A(c, name, v)
+    A("tsd", "values", np.zeros(10)); A("tsd", "d", np.zeros(10))
+    A("frame", "values", np.zeros((10, 2))); A("frame", "d", np.zeros((10, 2))); A("frame", "columns", ["c", "d"])
+    A("frame", "metadata", pd.DataFrame(index=["a", "b"])); A("frame", "metadata_index", ["c", "d"])
+    A("tensor", "values", np.zeros((10, 2, 2))); A("tensor", "d", np.zeros((10, 2, 2)))
+    for name, v in (("time_support", oep), ("index", np.array([4, 5, 6])), ("rate", np.array([1.0, 2.0, 3.0])), ("rates", np.array([1.0, 2.0, 3.0])), ("data", {}),
+                    ("metadata", pd.DataFrame(index=[0, 1, 4])), ("metadata_index", np.array([4, 5, 6])), ("nap_class", "x")):
+        A("group", name, v)
+    I("ep[0,0]=x", "ep", lambda o: o["ep"].__setitem__((0, 0), 3.0))
+    I("ep[0]=x", "ep", lambda o: o["ep"].__setitem__(0, (1.0, 2.0)))
+    I("ep['start']=x", "ep", lambda o: o["ep"].__setitem__("start", np.array([1.0, 11.0])))
+    I("ep['end']=x", "ep", lambda o: o["ep"].__setitem__("end", np.array([6.0, 16.0])))
+    I("ep.loc[0]=x", "ep", lambda o: o["ep"].loc.__setitem__(0, (1.0, 2.0)))
+    I("del ep[0]", "ep", lambda o: o["ep"].__delitem__(0))
+    for c in ("tsd", "ts", "frame", "tensor"):
+        I("%s.index[0]=x" % c, c, (lambda c: lambda o: o[c].index.__setitem__(0, 5.0))(c))
+        I("%s.index[:]=x" % c, c, (lambda c: lambda o: o[c].index.__setitem__(slice(None), 5.0))(c))
+    I("group[0]=x", "group", lambda o: o["group"].__setitem__(0, o["ts"]))
+    I("group[7]=x", "group", lambda o: o["group"].__setitem__(7, o["ts"]))
+    I("group['rate']=x", "group", lambda o: o["group"].__setitem__("rate", [1.0, 2.0, 3.0]))
+    I("group.set_info(rate=x)", "group", lambda o: o["group"].set_info(rate=[1.0, 2.0, 3.0]))
+    # the dict interface TsGroup inherits from UserDict: every mutator changes the KEYS
+    I("del group[0]", "group", lambda o: o["group"].__delitem__(0), "dict_api")
+    I("group.pop(0)", "group", lambda o: o["group"].pop(0), "dict_api")
+    I("group.popitem()", "group", lambda o: o["group"].popitem(), "dict_api")
+    I("group.clear()", "group", lambda o: o["group"].clear(), "dict_api")
+    I("group|={7:ts}", "group", lambda o: o["group"].__ior__({7: o["ts"]}), "dict_api")
+    I("group|=group", "group", lambda o: o["group"].__ior__(nap.TsGroup({7: o["ts"]})), "dict_api")
+    I("group.update({7:ts})", "group", lambda o: o["group"].update({7: o["ts"]}), "dict_api")
+    I("group.update({0:ts})", "group", lambda o: o["group"].update({0: o["ts"]}), "dict_api")
+    I("group.setdefault(7,ts)", "group", lambda o: o["group"].setdefault(7, o["ts"]), "dict_api")
+    for c, names in (("ep", ("values", "index", "columns")), ("tsd", ("index", "values", "time_support", "rate")), ("ts", ("index", "time_support", "rate")),
+                     ("frame", ("index", "values", "time_support", "rate", "columns")), ("tensor", ("index", "values", "time_support", "rate")),
+                     ("group", ("data", "index", "time_support"))):
+        for name in names:
+            D(c, name)
+    return out
+
+
+def check_rejected(res, nap):
+    for label, c, kind, f in rejected_writes(nap):
+        o = fresh(nap)
+        before = {k: state(nap, v) for k, v in o.items()}
+        res.case(("reject", label), nontrivial=True)
+        res.count("reject_kind=" + kind)
+        raised = False
+        try:
+            f(o)
+        except REJECT:
+            raised = True
+        changed = sorted(k for k, v in o.items() if not H.snap_equal(before[k], state(nap, v)))
+        if not raised:
+            res.violations.append({"key": {"op": label, "part": "accepted_write", "kind": kind, "container": c, "state_changed": bool(changed)},
+                                   "what": "a write that must be rejected was accepted: %s (objects changed: %s)" % (label, changed or "none"), "input": {"case": label, "changed": changed}})
+        elif changed:
+            res.violations.append({"key": {"op": label, "part": "state_changed_by_rejected_write", "kind": kind, "container": c},
+                                   "what": "%s raised, but only after changing %s" % (label, changed), "input": {"case": label, "changed": changed}})
+
+
+# ------------------------------------------------------------------------------------------------------
+# (d) sanctioned mutators are local
+def derivations(nap):
+    ep2 = nap.IntervalSet([0.0, 20.0], [9.0, 29.0])
+    feat = nap.Tsd(np.arange(0.0, 30.0, 0.5), np.arange(60.0))
+    idx = [5, 1, 7]
+    mask = np.arange(30) % 2 == 0
+    k3 = np.array([1.0, 2.0, 1.0])
+    common = {"restrict": lambda p: p.restrict(ep2), "restrict_own_support": lambda p: p.restrict(p.time_support), "get": lambda p: p.get(2.0, 20.0), "[3:9]": lambda p: p[3:9],
+              "[:]": lambda p: p[:], "[::2]": lambda p: p[::2], "[::-1]": lambda p: p[::-1], "[mask]": lambda p: p[mask], "[list]": lambda p: p[idx], "*1.0": lambda p: p * 1.0,
+              "bin_average": lambda p: p.bin_average(2.0), "copy": lambda p: p.copy(), "np.copy": lambda p: np.copy(p), "np.positive": lambda p: np.positive(p), "np.squeeze": lambda p: np.squeeze(p),
+              "np.real": lambda p: np.real(p), "astype": lambda p: p.astype(float), "dropna": lambda p: p.dropna(), "np.nan_to_num": lambda p: np.nan_to_num(p),
+              "np.split[0]": lambda p: np.split(p, 2)[0], "np.array_split[1]": lambda p: np.array_split(p, 2)[1], "np.clip": lambda p: np.clip(p, -1e9, 1e9),
+              "[get_slice]": lambda p: p[p.get_slice(0, 29)], "interpolate": lambda p: p.interpolate(feat), "convolve": lambda p: p.convolve(k3), "smooth": lambda p: p.smooth(1.0, size_factor=3),
+              "np.concatenate": lambda p: np.concatenate((p[0:10], p[10:30])), "np.moveaxis(0,0)": lambda p: np.moveaxis(p, 0, 0), "np.swapaxes(0,0)": lambda p: np.swapaxes(p, 0, 0)}
+    tsd = dict(common)
+    tsd.update({"value_from": lambda p: p.value_from(p), "np.reshape": lambda p: np.reshape(p, (30,)), "np.ravel": lambda p: np.ravel(p), "np.expand_dims": lambda p: np.expand_dims(p, 1),
+                "np.transpose": lambda p: np.transpose(p), "[:,None]": lambda p: p[:, None], "np.atleast_1d": lambda p: np.atleast_1d(p), "threshold": lambda p: p.threshold(-1.0),
+                "[bool Tsd]": lambda p: p[p > -1.0], "np.flip": lambda p: np.flip(p)})
+    frame = dict(common)
+    frame.update({"[:,0]": lambda p: p[:, 0], "[:,0:1]": lambda p: p[:, 0:1], "['a']": lambda p: p["a"], "[['a','b']]": lambda p: p[["a", "b"]], "[['b','a']]": lambda p: p[["b", "a"]],
+                  ".loc['a']": lambda p: p.loc["a"], ".loc[['a']]": lambda p: p.loc[["a"]], "np.reshape": lambda p: np.reshape(p, (30, 2)), "np.reshape3": lambda p: np.reshape(p, (30, 2, 1)),
+                  "np.expand_dims": lambda p: np.expand_dims(p, 2), "np.swapaxes(1,1)": lambda p: np.swapaxes(p, 1, 1), "np.flip(1)": lambda p: np.flip(p, 1), "[:,[0,1]]": lambda p: p[:, [0, 1]],
+                  "[:,::-1]": lambda p: p[:, ::-1], "np.hsplit[0]": lambda p: np.hsplit(p, 2)[0], "[:,bool]": lambda p: p[:, np.array([True, True])], "value_from": lambda p: feat.value_from(p),
+                  "groupby_apply": lambda p: p.groupby_apply("m", lambda z: z)[1]})
+    tensor = dict(common)
+    tensor.update({"[:,0]": lambda p: p[:, 0], "[:,0,0]": lambda p: p[:, 0, 0], "[:,:,0:1]": lambda p: p[:, :, 0:1], "np.reshape": lambda p: np.reshape(p, (30, 4)),
+                   "np.reshape3": lambda p: np.reshape(p, (30, 4, 1)), "np.swapaxes(1,2)": lambda p: np.swapaxes(p, 1, 2), "np.transpose(0,2,1)": lambda p: np.transpose(p, (0, 2, 1)),
+                   "np.moveaxis(1,2)": lambda p: np.moveaxis(p, 1, 2), "np.sum(.,2)": lambda p: np.sum(p, 2)})
+    sup = nap.IntervalSet(0.0, 29.0)
+    parents = {"Tsd": lambda: nap.Tsd(np.arange(30.0), np.arange(30.0), time_support=sup),
+               "TsdFrame": lambda: nap.TsdFrame(np.arange(30.0), np.arange(60.0).reshape(30, 2), time_support=sup, columns=["a", "b"], metadata={"m": [1, 2]}),
+               "TsdTensor": lambda: nap.TsdTensor(np.arange(30.0), np.arange(120.0).reshape(30, 2, 2), time_support=sup)}
+    return parents, {"Tsd": tsd, "TsdFrame": frame, "TsdTensor": tensor}
+
+
+def check_setitem_local(res, nap):
+    parents, forms = derivations(nap)
+    for cls, mk in parents.items():
+        base = mk()
+        names, derived = [], []
+        for name, f in forms[cls].items():
+            try:
+                dobj = f(base)
+            except Exception:
+                res.count("exception:derive:%s:%s" % (cls, name))
+                res.disagreements.append({"op": "derive", "what": "harness: the derivation %s of a %s raised, its locality check is vacuous" % (name, cls)})
+                continue
+            if not is_series(nap, dobj) or not len(dobj):
+                res.count("derivation_returns_no_series:%s:%s" % (cls, name))
+                continue
+            names.append(name); derived.append(dobj)
+        objs = [base] + derived
+        for k, dobj in enumerate(derived):
+            res.case(("setitem_local", cls, names[k]), nontrivial=True)
+            s_before = [state(nap, o) for o in objs]
+            dobj[0] = -99.0
+            for j, o in enumerate(objs):
+                if o is dobj:
+                    continue
+                if not H.snap_equal(s_before[j], state(nap, o)):
+                    other = "parent" if j == 0 else "sibling:" + names[j - 1]
+                    res.violations.append({"key": {"op": "setitem", "part": "visible_through_other_object", "parent": cls, "derivation": names[k], "other_is_parent": j == 0},
+                                           "what": "item assignment on %s(%s) changed another object (%s)" % (names[k], cls, other),
+                                           "input": {"parent": cls, "derivation": names[k], "other": other}})
+        # the other direction: a write into the parent must not reach the derived object
+        base2 = mk()
+        for name, f in forms[cls].items():
+            try:
+                dobj = f(base2)
+            except Exception:
+                continue
+            if not is_series(nap, dobj) or not len(dobj):
+                continue
+            res.evaluations += 1
+            sb = state(nap, dobj)
+            base2[:] = base2.values * 0 - 7.0
+            if not H.snap_equal(sb, state(nap, dobj)):
+                res.violations.append({"key": {"op": "setitem", "part": "visible_through_other_object", "parent": cls, "derivation": name, "other_is_parent": False, "write_into": "parent"},
+                                       "what": "item assignment on a %s changed the object derived from it by %s" % (cls, name), "input": {"parent": cls, "derivation": name}})
+            base2 = mk()
+
+
+def check_group_members_local(res, nap):
+    def mk():
+        return nap.TsGroup({0: nap.Tsd(np.arange(6.0), np.arange(6.0) + 1), 2: nap.Tsd(np.arange(6.0) + 0.5, np.arange(6.0) + 10), 5: nap.Tsd(np.arange(4.0), np.arange(4.0) + 20)},
+                           time_support=nap.IntervalSet(0.0, 10.0), metadata={"cat": [1, 1, 2]})
+    other = nap.TsGroup({9: nap.Tsd(np.arange(5.0), np.arange(5.0))}, time_support=nap.IntervalSet(0.0, 10.0), metadata={"cat": [3]})
+    sels = {"keys": lambda g: g[[0, 2]], "mask": lambda g: g[np.array([True, False, True])], "getby_threshold": lambda g: g.getby_threshold("rate", 0.0),
+            "getby_category": lambda g: g.getby_category("cat")[1], "getby_intervals": lambda g: g.getby_intervals("rate", np.array([0.0, 100.0]))[0][0],
+            "restrict": lambda g: g.restrict(nap.IntervalSet(0.0, 10.0)), "get": lambda g: g.get(0.0, 9.0), "groupby_apply": lambda g: g.groupby_apply("cat", lambda z: z)[1],
+            "merge": lambda g: g.merge(other), "merge_group": lambda g: nap.TsGroup.merge_group(g, other), "value_from": lambda g: g.value_from(nap.Tsd(np.arange(10.0), np.arange(10.0))),
+            "TsGroup(dict(g))": lambda g: nap.TsGroup(dict(g.items()), time_support=g.time_support)}
+    for sname, f in sels.items():
+        gt = mk()
+        res.case(("member_local", sname), nontrivial=True)
+        before = state(nap, gt)
+        try:
+            sub = f(gt)
+            k0 = list(sub.keys())[0]
+            sub[k0][1] = -12345.0
+        except Exception:
+            res.count("exception:selection:" + sname)
+            res.disagreements.append({"op": "selection", "what": "harness: the group selection %s raised, its locality check is vacuous" % sname})
+            continue
+        if not H.snap_equal(before, state(nap, gt)):
+            res.violations.append({"key": {"op": "setitem", "part": "visible_through_parent_group", "selection": sname},
+                                   "what": "item assignment into a member of a selected/derived TsGroup changed the parent group's member", "input": {"selection": sname}})
+        gt = mk()
+        before = state(nap, gt)
+        sub = f(gt)
+        if isinstance(sub, nap.TsGroup):
+            sub.set_info(extra=list(range(len(sub))))
+            if not H.snap_equal(before, state(nap, gt)):
+                res.violations.append({"key": {"op": "set_info", "part": "visible_through_other_object", "container": "TsGroup", "derivation": sname},
+                                       "what": "set_info on a group derived by %s changed the original group" % sname, "input": {"selection": sname}})
+
+
+def check_set_info_local(res, nap):
+    o = fresh(nap)
+    fr, ep = o["frame"], o["ep"]
+    m = fr.metadata
+    m["m"] = [7, 8]
+    if list(fr.metadata["m"]) != [1, 2]:
+        res.violations.append({"key": {"op": "metadata", "part": "copy"}, "what": "the metadata property does not return a copy", "input": {}})
+    for cname, parent, forms in (
+            ("TsdFrame", fr, {"[['a','b']]": lambda p: p[["a", "b"]], "[0:5]": lambda p: p[0:5], "restrict": lambda p: p.restrict(p.time_support), "get": lambda p: p.get(0, 5), "copy": lambda p: p.copy(),
+                              "*1": lambda p: p * 1, "bin_average": lambda p: p.bin_average(2.0), "[:,[0,1]]": lambda p: p[:, [0, 1]], "np.abs": lambda p: np.abs(p),
+                              "groupby_apply": lambda p: p.groupby_apply("m", lambda z: z)[1], "dropna": lambda p: p.dropna(), "smooth": lambda p: p.smooth(1.0, size_factor=3)}),
+            ("IntervalSet", ep, {"[[0,1]]": lambda p: p[[0, 1]], "[0:2]": lambda p: p[0:2], "intersect": lambda p: p.intersect(p), "drop_short": lambda p: p.drop_short_intervals(0.1),
+                                 "drop_long": lambda p: p.drop_long_intervals(100.0), "[mask]": lambda p: p[np.array([True, True])], "groupby_apply": lambda p: p.groupby_apply("lab", lambda z: z)[1],
+                                 "split": lambda p: p.split(5.0), "union_empty": lambda p: p.union(nap.IntervalSet([], [])),
+                                 "merge_close": lambda p: p.merge_close_intervals(0.1), "set_diff_empty": lambda p: p.set_diff(nap.IntervalSet([], []))})):
+        for name, f in forms.items():
+            res.case(("set_info_local", cname, name), nontrivial=True)
+            before = state(nap, parent)
+            try:
+                dobj = f(parent)
+                dobj.set_info(zz=list(range(len(dobj.metadata_index))))
+                if "lab" in dobj.metadata_columns or "m" in dobj.metadata_columns:
+                    col = "lab" if "lab" in dobj.metadata_columns else "m"
+                    dobj.set_info(**{col: [77] * len(dobj.metadata_index)})
+            except Exception:
+                res.count("exception:set_info_derive:%s:%s" % (cname, name))
+                res.disagreements.append({"op": "set_info", "what": "harness: set_info after the derivation %s of %s raised, its locality check is vacuous" % (name, cname)})
+                continue
+            if not H.snap_equal(before, state(nap, parent)):
+                res.violations.append({"key": {"op": "set_info", "part": "visible_through_other_object", "container": cname, "derivation": name},
+                                       "what": "set_info on a %s derived by %s changed the original" % (cname, name), "input": {"container": cname, "derivation": name}})
+
+
+# ------------------------------------------------------------------------------------------------------
+# (e) histories with mutators and with frames / tensors / groups as operands
+EXTRA = ["make_frame", "make_tensor", "frame_ops", "frame_ops", "tensor_ops", "tensor_ops", "group_ops", "group_ops", "group_analyses", "group_analyses", "trial_tensors", "ep_ops"]
+
+
+def apply_extra(R, name, rng):
+    """operations on live TsdFrame / TsdTensor / TsGroup / IntervalSet operands; returns the list of results"""
+    nap = R.nap
+    live = R.objs + R.extra
+    series = [o for o in live if isinstance(o, (nap.Tsd, nap.Ts)) and len(o) >= 2 and len(o.time_support)]
+    frames = [o for o in live if isinstance(o, nap.TsdFrame) and len(o) >= 2 and o.shape[1] >= 1]
+    tensors = [o for o in live if isinstance(o, nap.TsdTensor) and len(o) >= 2]
+    groups = [o for o in live if isinstance(o, nap.TsGroup) and len(o) >= 2]
+    eps = [o for o in live if isinstance(o, nap.IntervalSet) and len(o)]
+    if not series:
+        return []
+    x = rng.choice(series)
+    ep = rng.choice(eps) if eps else x.time_support
+    b = (rng.choice([1, 2, 3]) * 2 * H.U2) / 1e9
+    k3 = np.array([1.0, 2.0, 1.0])
+    if name == "make_frame":
+        v = np.arange(len(x), dtype=float)
+        return [nap.TsdFrame(np.asarray(x.t), np.stack([v, v * 2 + 1], 1), time_support=x.time_support, columns=["a", "b"], metadata={"m": [1, 2]})]
+    if name == "make_tensor":
+        return [nap.TsdTensor(np.asarray(x.t), np.arange(4 * len(x), dtype=float).reshape(len(x), 2, 2), time_support=x.time_support)]
+    if name == "frame_ops":
+        if not frames:
+            return []
+        fr = rng.choice(frames)
+        outs = [fr.restrict(ep), fr.bin_average(b, ep), fr[:, 0], fr[0:3], fr.get(float(fr.t[0]), float(fr.t[-1])), fr.dropna(), fr.interpolate(x, ep), np.sum(fr, 1), fr * 2 + 1,
+                fr.convolve(k3), fr.count(b, ep), np.cumsum(fr, 0), fr[::-1], fr.copy(), fr.value_from(fr)]
+        if np.all(np.diff(fr.t) > 0):
+            outs.append(np.concatenate((fr[0:1], fr[1:]), 0))
+        fr.as_dataframe(); fr.as_units("ms"); fr.metadata; fr.to_numpy(); fr.times("us")
+        if "m" in fr.metadata_columns:
+            outs += list(fr.groupby_apply("m", lambda z: z).values())
+            fr.groupby("m"); fr.get_info("m")
+        if fr.shape[1] >= 2:
+            outs += [fr[:, [1, 0]], fr.loc[fr.columns[0]], np.hstack((fr, fr)) if False else fr[:, 1:]]
+        return outs
+    if name == "tensor_ops":
+        if not tensors:
+            return []
+        te = rng.choice(tensors)
+        return [te.restrict(ep), te.bin_average(b, ep), te[:, 0], te[:, 0, -1], te[0:3], np.mean(te, tuple(range(1, te.ndim))), np.sum(te, 1), te * 2, te.convolve(k3), te.count(b, ep), te.dropna(),
+                te.get(float(te.t[0]), float(te.t[-1])), te.copy(), te.interpolate(x, ep), np.reshape(te, (len(te), -1)), np.swapaxes(te, 1, 2), te[::-1]]
+    if name == "group_ops":
+        if not groups:
+            return []
+        g = rng.choice(groups)
+        outs = [g.count(b, ep), g.count(b), g.restrict(ep), g.value_from(x if isinstance(x, nap.Tsd) else nap.Tsd(np.asarray(x.t), np.arange(len(x), dtype=float), time_support=x.time_support)),
+                g.to_tsd(), g.get(float(x.t[0]), float(x.t[-1])), g[g.rate >= 0], g[list(g.keys())[:1]], g.getby_threshold("rate", 0.0, ">="), g.trial_count(ep, b)]
+        g.rates; g.metadata; g.keys(); g.values(); g.items(); g.get_info("rate"); g["rate"]
+        cols = [c for c in g.metadata_columns if c != "rate"]
+        if cols:
+            c = cols[0]
+            outs += [g.to_tsd(c)] + list(g.getby_category(c).values()) + list(g.groupby_apply(c, lambda z: z).values())
+            g.groupby(c)
+        outs += g.getby_intervals("rate", np.array([0.0, float(np.max(g.rate)) + 1.0]))[0]
+        new_key = max(g.keys()) + 1
+        extra = nap.TsGroup({new_key: nap.Ts(np.asarray(x.t))}, time_support=g.time_support, metadata={c: [g.metadata[c].iloc[0]] for c in cols})
+        outs += [g.merge(extra), nap.TsGroup.merge_group(g, extra)]
+        return outs
+    if name == "group_analyses":
+        if not groups:
+            return []
+        g = rng.choice(groups)
+        xd = x if isinstance(x, nap.Tsd) else nap.Tsd(np.asarray(x.t), np.arange(len(x), dtype=float), time_support=x.time_support)
+        feat = nap.Tsd(np.asarray(xd.t), (np.arange(len(xd)) % 3).astype(float) + 0.5, time_support=xd.time_support)
+        feat2 = nap.TsdFrame(np.asarray(xd.t), np.stack([(np.arange(len(xd)) % 3).astype(float), (np.arange(len(xd)) % 2).astype(float)], 1), time_support=xd.time_support)
+        R.extra += [feat, feat2]       # live from now on: snapshots of later calls cover them
+        w = 2 * H.U2 / 1e9
+        tc1 = nap.compute_1d_tuning_curves(g, feat, 3)
+        tc2, xy = nap.compute_2d_tuning_curves(g, feat2, 2)
+        outs = [nap.compute_event_trigger_average(g, xd, w, (w, w)), nap.compute_perievent(g, nap.Ts(np.asarray(x.t)[::2]), (-w, w))[list(g.keys())[0]],
+                nap.build_tensor(g, ep, b) is None, nap.warp_tensor(g, ep, 3) is None]
+        nap.compute_1d_mutual_info(tc1, feat); nap.compute_2d_mutual_info(tc2, feat2)
+        nap.compute_autocorrelogram(g, w, 4 * w); nap.compute_crosscorrelogram(g, w, 4 * w); nap.compute_eventcorrelogram(g, nap.Ts(np.asarray(x.t)), w, 4 * w)
+        nap.compute_discrete_tuning_curves(g, {"a": ep, "b": x.time_support})
+        outs += [nap.decode_1d(tc1, g, ep, b)[0], nap.decode_2d(tc2, g, ep, b, xy)[0]]
+        return outs
+    if name == "trial_tensors":
+        outs = []
+        cand = frames + tensors + [o for o in series if isinstance(o, nap.Tsd)]
+        if not cand:
+            return []
+        y = rng.choice(cand)
+        y.to_trial_tensor(ep); nap.build_tensor(y, ep); nap.warp_tensor(y, ep, 3)
+        y.trial_count(ep, b) if hasattr(y, "trial_count") else None
+        if isinstance(y, nap.Tsd):
+            lab = nap.Tsd(np.asarray(y.t), (np.arange(len(y)) % 3).astype(float), time_support=y.time_support)
+            outs += [lab.to_tsgroup()]
+        return outs
+    if name == "ep_ops":
+        e2 = rng.choice(eps) if eps else ep
+        ep.get_intervals_center(); ep.time_span(); ep.as_units("ms"); ep.as_dataframe(); ep.tot_length(); ep.metadata; np.asarray(ep)
+        outs = [ep[0], ep[[0]], ep.loc[[0]], ep.drop_long_intervals(b), ep.intersect(e2), ep.union(e2), ep.set_diff(e2), ep.split(b), ep.copy() if hasattr(ep, "copy") else ep[:]]
+        return outs
+    return []
+
+
+def mutate(R, rng):
+    """one sanctioned mutation of a random live object. returns (kind, target object, objects allowed to change, the object written into) or None"""
+    nap = R.nap
+    live = R.objs + R.extra
+    cands = []
+    for o in live:
+        if is_series(nap, o) and len(o) >= 1:
+            cands.append(("setitem", o))
+            if len(o) >= 3:
+                cands.append(("setitem_slice", o))
+        if isinstance(o, nap.TsdFrame) and o.shape[1] >= 1:
+            cands.append(("set_info", o)); cands.append(("setitem_column", o))
+        if isinstance(o, nap.IntervalSet) and len(o):
+            cands.append(("set_info", o))
+        if isinstance(o, nap.TsGroup) and len(o):
+            cands.append(("set_info", o))
+            if any(isinstance(m, nap.Tsd) and len(m) for m in o.values()):
+                cands.append(("member_setitem", o))
+    if not cands:
+        return None
+    kind, o = rng.choice(cands)
+    v = float(rng.choice([-99.0, 1e6, 0.25]))
+    if kind == "setitem":
+        o[rng.randrange(len(o))] = v
+    elif kind == "setitem_slice":
+        o[1:3] = v
+    elif kind == "setitem_column":
+        if rng.random() < 0.5 or not isinstance(o.columns[0], str):
+            o[:, 0] = v
+        else:
+            o[o.columns[0]] = np.full(len(o), v)
+    elif kind == "set_info":
+        n = len(o.metadata_index)
+        o.set_info(**{rng.choice(["zz", "yy"]): [rng.randrange(100) for _ in range(n)]})
+    elif kind == "member_setitem":
+        m = rng.choice([m for m in o.values() if isinstance(m, nap.Tsd) and len(m)])
+        m[rng.randrange(len(m))] = v
+        return kind, o, [o, m], m
+    return kind, o, [o], o
+
+
+def run_mut_history(nap, seed, hid, length):
+    rng = random.Random(seed * 1000003 + hid)
+    ops = H.gen_history(rng, length)
+    R = H.Real(nap)
+    fails, mfails, exc, done = [], [], [], []
+
+    def live():
+        return R.objs + R.extra
+
+    def guard(label, f):
+        objs = live()
+        before = [state(nap, o) for o in objs]
+        try:
+            out = f()
+        except Exception as ex:
+            exc.append((label, type(ex).__name__ + ": " + str(ex)[:150]))
+            out = None
+        for i, o in enumerate(objs):
+            if not H.snap_equal(before[i], state(nap, o)):
+                fails.append((label, i, type(o).__name__))
+        return out
+
+    def keep(outs):
+        for y in outs or []:
+            if isinstance(y, (nap.Ts, nap.Tsd, nap.TsdFrame, nap.TsdTensor, nap.TsGroup, nap.IntervalSet)):
+                R.extra.append(y)
+
+    for step, op in enumerate(ops):
+        r = guard("op%d:%s" % (step, op[0]), lambda: H.apply_real(R, op, rng))
+        if r is None:
+            break
+        R.objs.append(r[0])
+        done.append(op[0])
+        if step < 2:
+            continue
+        if rng.random() < 0.5:
+            name = rng.choice(H.UNMODELLED)
+            keep(guard("unmodelled:" + name, lambda: H.apply_unmodelled(R, name, rng)))
+            done.append(name)
+        if rng.random() < 0.7:
+            name = rng.choice(EXTRA)
+            keep(guard("extra:" + name, lambda: apply_extra(R, name, rng)))
+            done.append("extra:" + name)
+        if rng.random() < 0.5:
+            objs = live()
+            before = [state(nap, o) for o in objs]
+            try:
+                m = mutate(R, rng)
+            except Exception as ex:
+                exc.append(("mutate", type(ex).__name__ + ": " + str(ex)[:150]))
+                m = None
+            if m is None:
+                continue
+            kind, target, allowed, written = m
+            done.append("mutate:" + kind)
+            # a series handed out by g[k] IS the member of g: the one group holding the target by identity changes with it.  Two groups holding
+            # the same member object is sharing introduced by an earlier operation (a selection that did not copy): the second one is reported.
+            holders = [o for o in objs if isinstance(o, nap.TsGroup) and any(mm is written for mm in o.data.values())]
+            if len(holders) == 1:
+                allowed = allowed + holders
+            changed_target = False
+            for i, o in enumerate(objs):
+                same = H.snap_equal(before[i], state(nap, o))
+                if any(o is a for a in allowed):
+                    changed_target = changed_target or not same
+                    continue
+                if not same:
+                    owner = isinstance(o, nap.TsGroup) and any(mm is written for mm in o.data.values())
+                    mfails.append((kind, type(target).__name__, type(o).__name__, i, bool(owner)))
+    return {"fails": fails, "mfails": mfails, "exc": exc, "done": done, "n_live": len(live())}
+
+
+# ------------------------------------------------------------------------------------------------------
 def run(res, tier, seed):
     nap = _nap()
     warnings.simplefilter("ignore")
     nh = 120 if tier == "quick" else 1500
     length = 12 if tier == "quick" else 30
+    nm, mlength = (nh, length) if tier == "quick" else (400, 18)      # the cost of a mutating history grows with the square of its length (every live object is snapshotted around every call)
     res.rule = ("(a) %d seeded histories (length %d) of 16 modelled + 25 unmodelled public operations with a deep snapshot of EVERY live object (timestamps, values, support, columns, keys, "
-                "metadata) before and after EVERY call, so that aliasing created by earlier results is exposed; (b) caller-supplied arrays/kernels/frames snapshotted around constructors, "
-                "convolve/smooth/filters, correlograms, tuning curves, decoding, perievent, spectrum, randomisation, save; (c) every container write that must be rejected; (d) item "
-                "assignment / set_info / metadata copies are local to the addressed object. non-trivial = a call with >= 1 live object; distinct = (history, step)" % (nh, length))
+                "metadata) before and after EVERY call, so that aliasing created by earlier results is exposed; (b) caller-supplied arrays/kernels/frames/dicts snapshotted around constructors, "
+                "convolve/smooth/filters, correlograms, 1d/2d tuning curves, mutual information, 1d/2d decoding, perievent, event-triggered average, spectrum, wavelets, trial tensors, "
+                "randomisation, group selection/merge, TsdTensor operations, save (a call that raises in every repetition is reported as a broken check); (c) every container write that must "
+                "be rejected, each on fresh objects with a deep state comparison: attribute assignment and attribute deletion of the reserved attributes of IntervalSet/Ts/Tsd/TsdFrame/"
+                "TsdTensor/TsGroup, item assignment into IntervalSet / time index / TsGroup keys, and the inherited dict mutators of TsGroup (del, pop, popitem, clear, |=, update, setdefault); "
+                "(d) item assignment / set_info are local to the addressed object for ~40 derivations of each of Tsd, TsdFrame, TsdTensor (both directions), 12 group derivations, 12 frame and "
+                "11 IntervalSet derivations; (e) %d further histories (length %d) in which TsdFrame/TsdTensor/TsGroup results are operands of later operations and random sanctioned mutations "
+                "(item assignment, column assignment, set_info, assignment into a group member) are interleaved: after a mutation every OTHER live object must be unchanged, around every "
+                "other call every live object must be unchanged. non-trivial = a call with >= 1 live object; distinct = (history, step) or (check, case)" % (nh, length, nm, mlength))
     # (a) histories with snapshots
     for hid in range(nh):
         r = H.run_history(nap, seed + 77, hid, length, 0.7, with_snapshots=True)
@@ -57,49 +535,120 @@ def run(res, tier, seed):
                                    "input": {"history": r["codes"], "seed": [seed + 77, hid], "at": label}})
         if hid == 0:
             res.sample({"history": r["codes"][:8], "unmodelled": r["unmodelled"][:5]})
+    # (e) histories with mutators and frame / tensor / group operands
+    exc_by_op, done_by_op = {}, {}
+    for hid in range(nm):
+        r = run_mut_history(nap, seed + 177, hid, mlength)
+        for k, name in enumerate(r["done"]):
+            res.case(("mhist", hid, k), nontrivial=True)
+            done_by_op[name] = done_by_op.get(name, 0) + 1
+            if name.startswith(("extra:", "mutate:")):
+                res.count(name)
+        for label, msg in r["exc"]:
+            exc_by_op[label.split(":", 1)[-1] if not label.startswith("op") else label.split(":")[-1]] = msg
+            res.count("mhist_exception:" + label.split(":", 1)[-1])
+        for label, idx, cls in r["fails"]:
+            res.violations.append({"key": {"op": label.split(":")[-1], "part": "argument_modified", "object": cls, "history": "with_mutators"},
+                                   "what": "a live %s changed across a call that is not a mutator (%s, object #%d)" % (cls, label, idx), "input": {"mut_seed": [seed + 177, hid, mlength], "at": label}})
+        for kind, tcls, ocls, idx, owner in r["mfails"]:
+            res.violations.append({"key": {"op": kind, "part": "visible_through_other_object", "target": tcls, "other": ocls, "other_is_group_holding_target": owner, "history": "with_mutators"},
+                                   "what": "%s on a live %s changed another live object (%s #%d)" % (kind, tcls, ocls, idx), "input": {"mut_seed": [seed + 177, hid, mlength], "mutation": kind}})
+        if hid == 0:
+            res.sample({"mutating_history": r["done"][:14]})
+    for name in EXTRA + ["mutate:setitem", "mutate:set_info", "mutate:setitem_column", "mutate:setitem_slice"]:
+        key = name if name.startswith("mutate:") else "extra:" + name
+        n_exc = res.dist.get("mhist_exception:" + name, 0)
+        if done_by_op.get(key, 0) - n_exc < 5:
+            res.disagreements.append({"op": key, "what": "harness: this operation completed fewer than 5 times over the mutating histories; its frame check is vacuous",
+                                      "done": done_by_op.get(key, 0), "exceptions": n_exc, "last_exception": exc_by_op.get(name)})
     # (b) caller-supplied arrays
     rng = random.Random(seed * 31 + 4)
     scratch = os.path.join(C.CACHE, "c10_scratch")
     os.makedirs(scratch, exist_ok=True)
     try:
-        for rep in range(6 if tier == "quick" else 60):
+        nrep = 6 if tier == "quick" else 60
+        raised = {}
+        for rep in range(nrep):
             n = rng.randint(20, 60)
             t = np.sort(np.array(rng.sample(range(0, 4000), n), dtype=float) / 100.0)
             d = np.arange(n, dtype=float) + 1
             d2 = np.arange(2 * n, dtype=float).reshape(n, 2)
+            d3 = np.arange(4 * n, dtype=float).reshape(n, 2, 2)
             s = np.array([0.0, 15.0, 30.0]); e = np.array([10.0, 25.0, 40.0])
             kern = np.array([1.0, 2.0, 1.0])
             kern2 = np.array([[1.0, 0.5], [2.0, 1.0], [1.0, 0.5]])
             tc = pd.DataFrame(np.array([[1.0, 3.0], [5.0, 2.0], [2.0, 7.0]]), index=np.array([0.5, 1.5, 2.5]), columns=[0, 1])
             feat_v = np.mod(np.arange(n), 3).astype(float) + 0.5
+            feat2_v = np.stack([np.mod(np.arange(n), 3).astype(float), np.mod(np.arange(n), 2).astype(float)], 1)
             dct = {0: t.copy(), 1: t[::2].copy()}
             cut = np.array([2.0, 8.0])
-            caller = {"t": t, "d": d, "d2": d2, "s": s, "e": e, "kern": kern, "kern2": kern2, "tc": tc, "feat_v": feat_v, "dct0": dct[0], "dct1": dct[1], "cut": cut}
+            freqs = np.array([2.0, 5.0, 10.0])
+            minmax = np.array([0.0, 2.0, 0.0, 1.0])
+            bins = np.array([0.0, 5.0, 100.0])
+            tc2 = {0: np.array([[1.0, 2.0], [3.0, 4.0]]), 1: np.array([[2.0, 1.0], [0.5, 3.0]])}
+            xy = [np.array([0.5, 1.5]), np.array([0.25, 0.75])]
+            caller = {"t": t, "d": d, "d2": d2, "d3": d3, "s": s, "e": e, "kern": kern, "kern2": kern2, "tc": tc, "feat_v": feat_v, "feat2_v": feat2_v, "dct0": dct[0], "dct1": dct[1], "cut": cut,
+                      "freqs": freqs, "minmax": minmax, "bins": bins, "tc2_0": tc2[0], "tc2_1": tc2[1], "xy0": xy[0], "xy1": xy[1]}
             before = {k: (v.copy(deep=True) if isinstance(v, pd.DataFrame) else v.copy()) for k, v in caller.items()}
-            ep = nap.IntervalSet(s, e)
+            ep = nap.IntervalSet(s, e, metadata={"lab": ["a", "b", "a"]})
             x = nap.Tsd(t, d, time_support=ep)
-            fr = nap.TsdFrame(t, d2, time_support=ep, columns=["a", "b"])
-            g = nap.TsGroup(dct, time_support=ep)
+            fr = nap.TsdFrame(t, d2, time_support=ep, columns=["a", "b"], metadata={"m": [1, 2]})
+            te = nap.TsdTensor(t, d3, time_support=ep)
+            g = nap.TsGroup(dct, time_support=ep, metadata={"cat": [1, 2]})
+            g2 = nap.TsGroup({7: nap.Ts(t[::3])}, time_support=ep, metadata={"cat": [4]})
             feat = nap.Tsd(t, feat_v, time_support=ep)
+            feat2 = nap.TsdFrame(t, feat2_v, time_support=ep)
             reg = nap.Tsd(np.arange(0, 40, 0.01), np.sin(np.arange(4000) / 9.0))
-            live = [ep, x, fr, g, feat, reg]
-            snaps = [H.snapshot(nap, o) for o in live]
+            regf = nap.TsdFrame(np.arange(0, 40, 0.01), np.stack([np.sin(np.arange(4000) / 9.0), np.cos(np.arange(4000) / 5.0)], 1))
+            ev = nap.Ts(t[::4])
+            live = [ep, x, fr, te, g, g2, feat, feat2, reg, regf, ev]
+            snaps = [state(nap, o) for o in live]
+            sv = lambda name: os.path.join(scratch, name)
             calls = {
-                "convolve": lambda: (x.convolve(kern), fr.convolve(kern2), x.convolve(kern, ep=ep, trim="left")),
-                "smooth": lambda: x.smooth(0.5, size_factor=5),
+                "constructors": lambda: (nap.Ts(t), nap.Tsd(t, d), nap.TsdFrame(t, d2), nap.TsdTensor(t, d3), nap.IntervalSet(s, e), nap.IntervalSet(np.stack([s, e], 1)), nap.TsGroup(dct),
+                                         nap.Tsd(t[::-1], d), nap.TsdFrame(t[::-1], d2, time_support=ep), nap.IntervalSet(e, s + 20.0), nap.TsGroup({0: x, 1: feat}), nap.TsGroup({0: x, 1: feat}, bypass_check=True)),
+                "convolve": lambda: (x.convolve(kern), fr.convolve(kern2), x.convolve(kern, ep=ep, trim="left"), te.convolve(kern)),
+                "smooth": lambda: (x.smooth(0.5, size_factor=5), fr.smooth(0.5, size_factor=5), te.smooth(0.5, size_factor=5)),
                 "filters": lambda: (nap.apply_lowpass_filter(reg, 5.0, mode="sinc"), nap.apply_highpass_filter(reg, 5.0, mode="sinc"), nap.apply_bandpass_filter(reg, cut, mode="sinc"),
                                     nap.apply_bandstop_filter(reg, cut, mode="sinc"), nap.apply_lowpass_filter(reg, 5.0, mode="butter"), nap.apply_bandpass_filter(reg, cut, mode="butter"),
-                                    nap.get_filter_frequency_response(cut, 100.0, "bandpass", "sinc"), nap.get_filter_frequency_response(cut, 100.0, "bandpass", "butter")),
-                "correlograms": lambda: (nap.compute_autocorrelogram(g, 0.5, 2.0), nap.compute_crosscorrelogram(g, 0.5, 2.0), nap.compute_eventcorrelogram(g, nap.Ts(t[::3]), 0.5, 2.0)),
-                "tuning": lambda: (nap.compute_1d_tuning_curves(g, feat, 3), nap.compute_discrete_tuning_curves(g, {"a": ep}), nap.compute_1d_tuning_curves_continuous(fr, feat, 3)),
-                "decode": lambda: nap.decode_1d(tc, g, ep, 1.0),
-                "perievent": lambda: (nap.compute_perievent(x, nap.Ts(t[::4]), minmax=(-1.0, 1.0)), nap.compute_perievent_continuous(reg, nap.Ts(t[::4]), minmax=(-0.05, 0.05))),
-                "spectrum": lambda: (nap.compute_fft(reg), nap.compute_power_spectral_density(reg), nap.compute_mean_power_spectral_density(reg, 5.0)),
-                "randomize": lambda: (nap.shift_timestamps(g, 0.0, 5.0), nap.jitter_timestamps(g, 0.1), nap.resample_timestamps(g), nap.shuffle_ts_intervals(g)),
-                "set_ops": lambda: (ep.union(ep), ep.intersect(ep), ep.set_diff(ep), ep.split(3.0), ep.merge_close_intervals(6.0), ep.drop_short_intervals(1.0), ep.in_interval(x)),
+                                    nap.get_filter_frequency_response(cut, 100.0, "bandpass", "sinc"), nap.get_filter_frequency_response(cut, 100.0, "bandpass", "butter"),
+                                    nap.apply_lowpass_filter(regf, 5.0, mode="sinc"), nap.apply_bandpass_filter(regf, cut, mode="butter"),
+                                    nap.apply_bandpass_filter(reg, cut, fs=100.0, mode="sinc", transition_bandwidth=0.1)),
+                "correlograms": lambda: (nap.compute_autocorrelogram(g, 0.5, 2.0), nap.compute_crosscorrelogram(g, 0.5, 2.0), nap.compute_eventcorrelogram(g, nap.Ts(t[::3]), 0.5, 2.0),
+                                         nap.compute_crosscorrelogram((g, g), 0.5, 2.0), nap.compute_autocorrelogram(g, 0.5, 2.0, ep=ep, norm=False), nap.compute_crosscorrelogram(g, 0.5, 2.0, reverse=True)),
+                "tuning": lambda: (nap.compute_1d_tuning_curves(g, feat, 3), nap.compute_discrete_tuning_curves(g, {"a": ep}), nap.compute_1d_tuning_curves_continuous(fr, feat, 3),
+                                   nap.compute_2d_tuning_curves(g, feat2, 2, ep=ep, minmax=minmax), nap.compute_2d_tuning_curves_continuous(fr, feat2, 2),
+                                   nap.compute_1d_tuning_curves(g, feat, 3, minmax=minmax[:2])),
+                "mutual_info": lambda: (nap.compute_1d_mutual_info(tc, feat, ep), nap.compute_2d_mutual_info(tc2, feat2, ep), nap.compute_1d_mutual_info(tc.values, feat, minmax=minmax[:2], bitssec=True)),
+                "decode": lambda: (nap.decode_1d(tc, g, ep, 1.0), nap.decode_1d(tc, g, ep, 1.0, feature=feat), nap.decode_1d(tc, g.count(1.0, ep), ep, 1.0), nap.decode_1d(tc, {0: g[0], 1: g[1]}, ep, 1.0)),
+                "decode_2d": lambda: (nap.decode_2d(tc2, g, ep, 1.0, xy), nap.decode_2d(tc2, g, ep, 1.0, xy, features=feat2), nap.decode_2d(tc2, g.count(1.0, ep), ep, 1.0, xy)),
+                "perievent": lambda: (nap.compute_perievent(x, ev, minmax=(-1.0, 1.0)), nap.compute_perievent_continuous(reg, ev, minmax=(-0.05, 0.05)), nap.compute_perievent(g, ev, (-1.0, 1.0)),
+                                      nap.compute_perievent_continuous(regf, ev, (-0.05, 0.05), ep=ep)),
+                "eta": lambda: (nap.compute_event_trigger_average(g, reg, 0.05, (0.1, 0.1), ep), nap.compute_event_trigger_average(g, regf, 0.05, (0.1, 0.1))),
+                "spectrum": lambda: (nap.compute_fft(reg), nap.compute_power_spectral_density(reg), nap.compute_mean_power_spectral_density(reg, 5.0), nap.compute_fft(regf, norm=True),
+                                     nap.compute_power_spectral_density(regf, full_range=True), nap.compute_mean_power_spectral_density(regf, 5.0, ep=nap.IntervalSet(0, 40))),
+                "wavelets": lambda: (nap.compute_wavelet_transform(reg, freqs, fs=100.0), nap.compute_wavelet_transform(regf, freqs, fs=100.0), nap.generate_morlet_filterbank(freqs, 100.0)),
+                "trial_tensors": lambda: (nap.build_tensor(g, ep, 1.0), nap.build_tensor(x, ep), nap.build_tensor(fr, ep, 1.0), nap.build_tensor(te, ep), nap.warp_tensor(g, ep, 5), nap.warp_tensor(fr, ep, 5),
+                                          x.to_trial_tensor(ep), fr.to_trial_tensor(ep), te.to_trial_tensor(ep), g.trial_count(ep, 1.0), g[0].trial_count(ep, 1.0)),
+                "randomize": lambda: (nap.shift_timestamps(g, 0.0, 5.0), nap.jitter_timestamps(g, 0.1), nap.resample_timestamps(g), nap.shuffle_ts_intervals(g),
+                                      nap.shift_timestamps(g[0], 0.0, 5.0), nap.jitter_timestamps(g[0], 0.1, keep_tsupport=True), nap.resample_timestamps(g[0]), nap.shuffle_ts_intervals(g[0])),
+                "set_ops": lambda: (ep.union(ep), ep.intersect(ep), ep.set_diff(ep), ep.split(3.0), ep.merge_close_intervals(6.0), ep.drop_short_intervals(1.0), ep.in_interval(x),
+                                    ep.get_intervals_center(), ep.get_intervals_center(0.3), ep.time_span(), ep.as_units("ms"), ep.as_dataframe(), ep.tot_length(), ep.drop_long_intervals(5.0),
+                                    np.asarray(ep), ep[0], ep[[0, 2]], ep.loc[[0, 1]], ep["lab"], ep.starts, ep.ends, ep.groupby("lab"), ep.groupby_apply("lab", lambda z: z.tot_length())),
                 "queries": lambda: (x.restrict(ep), x.count(1.0, ep), x.bin_average(1.0), x.value_from(feat, ep), x.interpolate(feat, ep), x.threshold(5.0), x.dropna(), x.get(3.0, 20.0),
-                                    g.restrict(ep), g.count(1.0), g.value_from(feat), g.to_tsd(), g[[1]], fr[["b"]], fr.loc["a"], np.sqrt(x), x * 2 + fr[:, 0].values, np.concatenate((x.get(0, 9), x.get(15, 24)))),
-                "save": lambda: (x.save(os.path.join(scratch, "x.npz")), fr.save(os.path.join(scratch, "fr.npz")), g.save(os.path.join(scratch, "g.npz")), ep.save(os.path.join(scratch, "ep.npz"))),
+                                    g.restrict(ep), g.count(1.0), g.value_from(feat), g.to_tsd(), g[[1]], fr[["b"]], fr.loc["a"], np.sqrt(x), x * 2 + fr[:, 0].values, np.concatenate((x.get(0, 9), x.get(15, 24))),
+                                    x.as_series(), x.as_units("us"), x.to_numpy(), x.find_support(1.0), x.threshold(5.0, "below"), x.copy(), np.nan_to_num(x), np.clip(x, 2.0, 8.0), np.diff(x),
+                                    x[x > 5.0], x.get_slice(3, 9), x.times("ms"), x.start_time("us"), x.end_time("ms")),
+                "frame_tensor": lambda: (fr.restrict(ep), fr.bin_average(1.0), fr.interpolate(feat), fr.dropna(), fr.as_dataframe(), fr.as_units("ms"), np.sum(fr, 1), np.cumsum(fr, 0), fr > 5.0,
+                                         fr[fr[:, 0].values > 5.0], fr.get_info("m"), fr["m"], fr.groupby("m"), fr.groupby_apply("m", np.mean), te.restrict(ep), te.bin_average(1.0), te.count(1.0),
+                                         te.interpolate(feat), te[:, 0], te[:, 0, 1], np.sum(te, 1), np.mean(te, (1, 2)), te * 2, te.dropna(), te.get(3, 9), te.copy(), te.as_array(),
+                                         np.concatenate((fr.get(0, 9), fr.get(15, 24)), 0), np.hstack((fr, fr)), np.split(te, 2) if len(te) % 2 == 0 else np.array_split(te, 2)),
+                "groups": lambda: (g.to_tsd("cat"), g.to_tsd(np.array([1.0, 2.0])), g.getby_threshold("rate", 0.1), g.getby_intervals("rate", bins), g.getby_category("cat"), g.groupby("cat"),
+                                   g.groupby_apply("cat", lambda z: len(z)), g.merge(g2), nap.TsGroup.merge_group(g, g2), nap.TsGroup.merge_group(g, g2, reset_index=True, ignore_metadata=True),
+                                   g.count(), g.count(ep=ep), g.get(3, 9), g[g.rate > 0.1], g.rates, g.metadata, g.get_info("cat"), g["cat"], list(g.keys()), list(g.values()), list(g.items()),
+                                   nap.Tsd(t, np.mod(np.arange(n), 3).astype(float)).to_tsgroup()),
+                "save": lambda: (x.save(sv("x.npz")), fr.save(sv("fr.npz")), g.save(sv("g.npz")), ep.save(sv("ep.npz")), te.save(sv("te.npz")), nap.Ts(t).save(sv("ts.npz")),
+                                 nap.load_file(sv("x.npz")), nap.load_file(sv("fr.npz")), nap.load_file(sv("g.npz")), nap.load_file(sv("ep.npz")), nap.load_file(sv("te.npz"))),
             }
             st = np.random.get_state()
             np.random.seed(rng.randrange(2**31))
@@ -110,93 +659,33 @@ def run(res, tier, seed):
                         f()
                     except Exception as ex:
                         res.count("exception:" + name)
+                        raised.setdefault(name, []).append(type(ex).__name__ + ": " + str(ex)[:200])
                     for k, v in caller.items():
                         same = v.equals(before[k]) if isinstance(v, pd.DataFrame) else np.array_equal(v, before[k], equal_nan=True)
                         if not same:
                             res.violations.append({"key": {"op": name, "part": "caller_array_modified", "array": k}, "what": "a caller-supplied array was modified by " + name,
                                                    "input": {"call": name, "array": k}})
-                            caller[k][...] = before[k] if not isinstance(v, pd.DataFrame) else v
-                    for o, sn in zip(live, snaps):
-                        if not H.snap_equal(sn, H.snapshot(nap, o)):
-                            res.violations.append({"key": {"op": name, "part": "argument_modified"}, "what": "an argument object was modified by " + name,
+                            if isinstance(v, pd.DataFrame):
+                                caller[k].iloc[:, :] = before[k].values
+                            else:
+                                caller[k][...] = before[k]
+                    for i, (o, sn) in enumerate(zip(live, snaps)):
+                        if not H.snap_equal(sn, state(nap, o)):
+                            res.violations.append({"key": {"op": name, "part": "argument_modified", "object": type(o).__name__}, "what": "an argument object was modified by " + name,
                                                    "input": {"call": name, "object": type(o).__name__}})
+                            snaps[i] = state(nap, o)
             finally:
                 np.random.set_state(st)
+        for name, msgs in raised.items():
+            # a call that raises stops before its later operations: the frame check around it is (partly) vacuous
+            res.disagreements.append({"op": name, "what": "harness: the call group '%s' raised in %d of %d repetitions; the operations after the raising one were never run under snapshots"
+                                      % (name, len(msgs), nrep), "first": msgs[0]})
         # (c) rejected writes
-        ep = nap.IntervalSet([0.0, 10.0], [5.0, 15.0], metadata={"lab": [1, 2]})
-        x = nap.Tsd(np.arange(10.0), np.arange(10.0))
-        fr = nap.TsdFrame(np.arange(10.0), np.arange(20.0).reshape(10, 2), columns=["a", "b"], metadata={"m": [1, 2]})
-        ts = nap.Ts(np.arange(10.0))
-        g = nap.TsGroup({0: ts, 1: nap.Ts(np.arange(5.0))}, metadata={"lab": [1, 2]})
-
-        def set_(o, name, v):
-            return lambda: setattr(o, name, v)
-        rej = {
-            "ep[0,0]=x": lambda: ep.__setitem__((0, 0), 3.0), "ep[0]=x": lambda: ep.__setitem__(0, (1.0, 2.0)), "ep['start']=x": lambda: ep.__setitem__("start", np.array([1.0, 11.0])),
-            "ep['end']=x": lambda: ep.__setitem__("end", np.array([6.0, 16.0])),
-            "ep.start=x": set_(ep, "start", np.array([1.0, 2.0])), "ep.end=x": set_(ep, "end", np.array([1.0, 2.0])), "ep.values=x": set_(ep, "values", np.zeros((2, 2))),
-            "ep.index=x": set_(ep, "index", np.array([5, 6])), "ep.columns=x": set_(ep, "columns", ["a", "b"]),
-            "tsd.index[0]=x": lambda: x.index.__setitem__(0, 5.0), "tsd.index=x": set_(x, "index", np.arange(10.0)), "tsd.rate=x": set_(x, "rate", 3.0),
-            "tsd.time_support=x": set_(x, "time_support", ep), "tsd.values=x": set_(x, "values", np.zeros(10)), "tsd.t=x": set_(x, "t", np.zeros(10)),
-            "ts.index=x": set_(ts, "index", np.arange(10.0)), "ts.time_support=x": set_(ts, "time_support", ep), "ts.rate=x": set_(ts, "rate", 1.0),
-            "frame.columns=x": set_(fr, "columns", ["c", "d"]), "frame.time_support=x": set_(fr, "time_support", ep), "frame.index=x": set_(fr, "index", np.arange(10.0)),
-            "frame.rate=x": set_(fr, "rate", 1.0), "frame.values=x": set_(fr, "values", np.zeros((10, 2))),
-            "group.time_support=x": set_(g, "time_support", ep), "group.index=x": set_(g, "index", np.array([4, 5])), "group.rate=x": set_(g, "rate", np.array([1.0, 2.0])),
-            "group.data=x": set_(g, "data", {}), "group[0]=x": lambda: g.__setitem__(0, ts), "group['rate']=x": lambda: g.__setitem__("rate", [1.0, 2.0]),
-        }
-        for label, f in rej.items():
-            expect_raises(res, label, f)
-        # nothing changed through the rejected writes
-        if ep.values.tolist() != [[0.0, 5.0], [10.0, 15.0]] or list(x.t) != list(np.arange(10.0)) or list(fr.columns) != ["a", "b"] or list(g.keys()) != [0, 1]:
-            res.violations.append({"key": {"op": "rejected_write", "part": "state_changed"}, "what": "a rejected write nevertheless changed the object", "input": {}})
+        check_rejected(res, nap)
         # (d) sanctioned mutators are local
-        ep2 = nap.IntervalSet([0.0, 20.0], [9.0, 29.0])
-        base = nap.Tsd(np.arange(30.0), np.arange(30.0), time_support=nap.IntervalSet(0.0, 29.0))
-        derived = [base.restrict(ep2), base.get(2.0, 20.0), base[3:9], base * 1.0, base.bin_average(2.0), base.value_from(base)]
-        snaps = [H.snapshot(nap, o) for o in [base] + derived]
-        for k, dobj in enumerate(derived):
-            res.evaluations += 1
-            s_before = [H.snapshot(nap, o) for o in [base] + derived]
-            dobj[0] = -99.0
-            for j, o in enumerate([base] + derived):
-                if o is dobj:
-                    continue
-                if not H.snap_equal(s_before[j], H.snapshot(nap, o)):
-                    res.violations.append({"key": {"op": "setitem", "part": "visible_through_other_object"}, "what": "item assignment on a derived series changed another object",
-                                           "input": {"derived": k, "other": j}})
-        # item assignment into a member of a SELECTED group must not be visible in the parent group
-        gt = nap.TsGroup({0: nap.Tsd(np.arange(6.0), np.arange(6.0) + 1), 2: nap.Tsd(np.arange(6.0) + 0.5, np.arange(6.0) + 10), 5: nap.Tsd(np.arange(4.0), np.arange(4.0) + 20)},
-                         time_support=nap.IntervalSet(0.0, 10.0), metadata={"cat": [1, 1, 2]})
-        sels = {"keys": lambda: gt[[0, 2]], "mask": lambda: gt[np.array([True, False, True])], "getby_threshold": lambda: gt.getby_threshold("rate", 0.0),
-                "getby_category": lambda: gt.getby_category("cat")[1], "restrict": lambda: gt.restrict(nap.IntervalSet(0.0, 10.0)), "get": lambda: gt.get(0.0, 9.0)}
-        for sname, f in sels.items():
-            res.evaluations += 1
-            before = H.snapshot(nap, gt)
-            sub = f()
-            k0 = list(sub.keys())[0]
-            sub[k0][1] = -12345.0
-            if not H.snap_equal(before, H.snapshot(nap, gt)):
-                res.violations.append({"key": {"op": "setitem", "part": "visible_through_parent_group", "selection": sname},
-                                       "what": "item assignment into a member of a selected/derived TsGroup changed the parent group's member", "input": {"selection": sname}})
-                gt = nap.TsGroup({0: nap.Tsd(np.arange(6.0), np.arange(6.0) + 1), 2: nap.Tsd(np.arange(6.0) + 0.5, np.arange(6.0) + 10), 5: nap.Tsd(np.arange(4.0), np.arange(4.0) + 20)},
-                                 time_support=nap.IntervalSet(0.0, 10.0), metadata={"cat": [1, 1, 2]})
-        m = fr.metadata
-        m["m"] = [7, 8]
-        if list(fr.metadata["m"]) != [1, 2]:
-            res.violations.append({"key": {"op": "metadata", "part": "copy"}, "what": "the metadata property does not return a copy", "input": {}})
-        g2 = g[[0, 1]]
-        g2.set_info(extra=[5, 6])
-        if "extra" in g.metadata.columns:
-            res.violations.append({"key": {"op": "set_info", "part": "visible_through_other_object"}, "what": "set_info on a selected group changed the original group", "input": {}})
-        fr2 = fr[["a", "b"]]
-        fr2.set_info(z=[1, 2])
-        if "z" in fr.metadata.columns:
-            res.violations.append({"key": {"op": "set_info", "part": "visible_through_other_object"}, "what": "set_info on a derived frame changed the original frame", "input": {}})
-        ep3 = ep[[0, 1]]
-        ep3.set_info(w=[1, 2])
-        if "w" in ep.metadata.columns:
-            res.violations.append({"key": {"op": "set_info", "part": "visible_through_other_object"}, "what": "set_info on a derived IntervalSet changed the original", "input": {}})
-        res.evaluations += 4
+        check_setitem_local(res, nap)
+        check_group_members_local(res, nap)
+        check_set_info_local(res, nap)
     finally:
         shutil.rmtree(scratch, ignore_errors=True)
 
@@ -218,6 +707,19 @@ def replay(payload):
         print("history", r["codes"])
         print("snapshot failures:", r["snap"])
         return 1 if r["snap"] else 0
+    if "mut_seed" in inp:
+        seed, hid, length = inp["mut_seed"]
+        r = run_mut_history(nap, seed, hid, length)
+        print("history", r["done"])
+        print("objects changed across a non-mutating call:", r["fails"])
+        print("objects other than the target changed by a mutation:", r["mfails"])
+        return 1 if (r["fails"] or r["mfails"]) else 0
+    if "case" in inp:
+        r = C.Result()
+        check_rejected(r, nap)
+        hits = [x for x in r.violations if x["key"] == v.get("key")]
+        print("rejected-write case", inp["case"], "->", [h["what"] for h in hits] or "rejected, state unchanged")
+        return 1 if hits else 0
     r = C.Result()
     run(r, "quick", 0)
     hits = [x for x in r.violations if x["key"] == v.get("key")]
